@@ -32,6 +32,13 @@ thread_local! {
 /// finding C08.P1), so every conversation leaves sockets behind in the world's process.
 const WORLD_LIFETIME: usize = 250;
 
+/// More than 40 % of the descriptor limit in use: the worlds (all workers look at the same count,
+/// each throws its own away) are rebuilt before a case can fail for lack of descriptors.
+pub fn fds_running_out() -> bool {
+    let (used, limit) = crate::engine::fd_usage();
+    used * 5 > limit * 2
+}
+
 fn build() -> Result<World, Fail> {
     let rt = tokio::runtime::Builder::new_multi_thread().worker_threads(2).enable_all().build().map_err(|e| infra(format!("runtime: {e}")))?;
     let parts = rt.block_on(async {
@@ -61,7 +68,7 @@ pub fn with_world<T>(f: impl FnOnce(&World) -> Result<T, Fail>) -> Result<T, Fai
         u.set(u.get() + 1);
         u.get()
     });
-    if n % WORLD_LIFETIME == 0 {
+    if n % WORLD_LIFETIME == 0 || ((n % 8 == 0 || crate::engine::fd_usage().1 < 8192) && fds_running_out()) {
         reset_world();
     }
     WORLD.with(|w| {
